@@ -209,9 +209,19 @@ func runLeaderWorld(t *testing.T, p *Plan, want []string, logw io.Writer) *Resul
 			// such a block can only be on a committed chain if replicas accept its certificate: ask the
 			// repository's own verification (which does not look at the signature bytes of a genesis certificate)
 			if qc.Signature() != nil && !genesisQCAccepted(n, qc) {
-				st.Probes["c16-signed-genesis-certificate-rejected"]++
-				qc = hotstuff.NewQuorumCert(nil, 0, hotstuff.GetGenesis().Hash())
-				signers = nil
+				// ... or if a replica can be handed the block without any verification: a block fetched from a peer is
+				// checked by hash only, so a variant of the honest block (unsigned genesis certificate) with the same hash
+				// can be planted by whoever answers the fetch
+				honest := hotstuff.NewBlock(parent.b.Hash(), hotstuff.NewQuorumCert(nil, 0, hotstuff.GetGenesis().Hash()), &clientpb.Batch{}, view, 1)
+				variant := hotstuff.NewBlock(parent.b.Hash(), qc, &clientpb.Batch{}, view, 1)
+				variant.SetTimestamp(honest.Timestamp())
+				if variant.Hash() == honest.Hash() {
+					st.Faults["genesis-certificate-variant-with-the-honest-hash"]++
+				} else {
+					st.Probes["c16-signed-genesis-certificate-rejected"]++
+					qc = hotstuff.NewQuorumCert(nil, 0, hotstuff.GetGenesis().Hash())
+					signers = nil
+				}
 			}
 		} else {
 			qc = hotstuff.NewQuorumCert(sig, parent.b.View(), parent.b.Hash())
